@@ -247,9 +247,10 @@ def gen_rule_line(r) -> str:
     d = r.pick(DIRECTIVES)
     if r.chance(0.1):
         d = d.upper() if r.chance(0.5) else d.capitalize()
-    if "mcp" in d:
+    cross = r.chance(0.12)  # patterns that look like they belong to another family
+    if ("mcp" in d) != cross and not (cross and "redirect" in d):
         pat = r.pick(["mcp__github__*", "mcp__*", "mcp__fs__read_file", "mcp__[ab]*", "*", "mcp__x__?"])
-    elif "redirect" in d:
+    elif "redirect" in d and not cross:
         pat = r.pick(["/tmp/ok", "/tmp/**", "~/out/**", "out.txt", "./build/*", "**/log", "/tmp/dir/", "dir/**/x", "*.log", "/tmp/a b"])
     else:
         pat = r.pick(WS[:2]).join(r.pick(PATTERN_WORDS) for _ in range(r.randint(1, 4)))
